@@ -211,7 +211,7 @@ def parseIPv6HeaderRouting (m : FlowMsg) (d : Bytes) (pc : PC) : PRes :=
     (after the `fix:` commit; the pinned tree read the flags byte 13) -/
 def parseTCP (m : FlowMsg) (d : Bytes) (pc : PC) : PRes :=
   if d.length < 20 then tooShort m else
-  let size := (u8 d 12 / 16) * 4
+  let size := max 20 ((u8 d 12 / 16) * 4)
   let m := addLayer m "TCP"
   let sp := be d 0 2
   let dp := be d 2 2
